@@ -170,6 +170,32 @@ def proof_step(prop, theorems, extra_files=()):
         res['failed'] = list(theorems)
         res['log'] = (p.stdout + p.stderr)[-4000:]
         return res
+    # statement pins: the printed statement of every theorem must equal the committed pin
+    pinf = os.path.join(ROOT, 'pins', '%s.json' % prop)
+    vf2 = os.path.join(chk, 'ck_%s.v' % prop)
+    with open(vf2, 'w') as f:
+        f.write('From AvroV Require Import Props.%s.\nSet Printing Width 10000.\n' % prop)
+        for t in theorems:
+            f.write('Check %s.\n' % t)
+    p2 = sh('timeout 600 coqc -Q %s AvroV %s' % (COQ, vf2), cwd=chk, check=False)
+    stmts = {}
+    cur = None
+    for line in p2.stdout.splitlines():
+        m = re.match(r'^(\w+)$', line.strip())
+        if line and not line.startswith(' ') and m and m.group(1) in theorems:
+            cur = m.group(1); stmts[cur] = ''
+        elif cur is not None:
+            stmts[cur] += ' ' + line.strip()
+    stmts = {k: re.sub(r'\s+', ' ', v).strip() for k, v in stmts.items()}
+    if os.environ.get('VERIF_UPDATE_PINS') == '1':
+        os.makedirs(os.path.dirname(pinf), exist_ok=True)
+        json.dump(stmts, open(pinf, 'w'), indent=1, sort_keys=True)
+    pins = json.load(open(pinf)) if os.path.exists(pinf) else {}
+    weakened = [t for t in theorems if pins.get(t) is None or pins.get(t) != stmts.get(t)]
+    if weakened:
+        res['failed'] = weakened
+        res['log'] = 'statement differs from its pin (pins/%s.json): %s' % (prop, ', '.join(weakened))
+        return res
     blocks = re.split(r'\n(?=Closed under the global context|Axioms:)', '\n' + p.stdout)
     blocks = [b.strip() for b in blocks if b.strip()]
     if len(blocks) != len(theorems):
